@@ -378,41 +378,35 @@ def _current_token_exists(F, fn, bb):
 
 @guard("mutation-operand-not-identifier")
 def g_mutation_operand(ctx, F, body, site):
-    n = 0
+    """every function that constructs MutationOperandMustBeIdentifier(x) does so only when x is not an Identifier: decided by KIND
+    over all kinds of primary expression (whatever idiom the test is written in)"""
+    from . import kind as _kind, kindtables as _kt
+    from .kind import E
+    PE = "frontend::ast::PrimaryExpression"
+    makers = set()
     for fn, bi, s in common.aggregates_of(F, "frontend::parser::ParseErrorCode", "MutationOperandMustBeIdentifier"):
-        if fn.in_test_file():
-            continue
-        n += 1
-        if fn.kind != "closure":
-            return False, "constructed outside the ok_or_else closure in %s" % fn.path
-        use = _closure_use(F, fn)
-        # the closure may be nested one level (|| self.new_parse_error(..)) directly in ok_or_else
-        if not use or not is_callee(use[2], "std::option::Option::<T>::ok_or_else"):
-            return False, "the constructing closure is not the argument of ok_or_else"
-        parent, cb, ct = use
-        thens = [d[1] for d, _ in origins(parent, ct["args"][0]) if d[0] == "call" and is_callee(parent.term(d[1]), "core::bool::<impl bool>::then")]
-        if not thens:
-            return False, "ok_or_else is not applied to bool::then(..)"
-        tb = parent.term(thens[0])
-        recv = op_local(tb["args"][0])
-        # the bool is true exactly in the Identifier arm of the operand's discriminant
-        for d in parent.defs().get(recv, []):
-            if d[0] != "stmt":
-                return False, "the tested bool comes from a call"
-            val = d[3]["rv"].get("use", {}).get("const", {}).get("int")
-            blk = d[1]
-            arm = None
-            for sb in range(len(parent.blocks)):
-                sw = tables.arms_complete(parent, sb)
-                if sw and F.ty(sw[1].i).peel_refs().adt() == "frontend::ast::PrimaryExpression":
-                    for v, tg in sw[2].items():
-                        if tg == blk:
-                            arm = (arm or set()) | {v}
-            if val == "1" and arm != {"Identifier"}:
-                return False, "the test is true for %s" % arm
-            if val == "0" and arm is not None and "Identifier" in arm:
-                return False, "the test is false for Identifier"
-    return n > 0, "" if n > 0 else "no construction found"
+        if not fn.in_test_file():
+            makers.add(common.top_fn(F, fn).path)
+    if not makers:
+        return False, "no construction found"
+    variants = [v["name"] for v in F.adts.get(PE, {"variants": []})["variants"]]
+    if "Identifier" not in variants:
+        return False, "PrimaryExpression has no Identifier variant"
+    for path in sorted(makers):
+        fn = F.fn(path)
+        ops = [i for i in range(1, fn.argc + 1) if fn.local_ty(i).peel_refs().adt() == PE]
+        if len(ops) != 1:
+            return False, "%s: cannot tell which parameter is the operand" % path
+        I = _kind.Interp(F, models={"frontend::parser::Parser::<'a>::new_parse_error": lambda I_, f, st, t, args, depth: iter([(("call", "parse_error", (_kind._short(args[1]),)), None, ())])})
+        args = []
+        for i in range(1, fn.argc + 1):
+            args.append(E(PE, "Identifier", ("sym", "payload")) if i == ops[0] else ("sym", "p%d" % i))
+        for o in I.run(fn, args):
+            if "MutationOperandMustBeIdentifier" in _kt.term(o.ret):
+                return False, "%s reports MutationOperandMustBeIdentifier for an operand that is an identifier" % path
+        if I.incomplete:
+            return False, "%s could not be interpreted completely" % path
+    return True, ""
 
 
 @guard("compute-value-no-dot")
@@ -466,6 +460,11 @@ def g_greedy(ctx, F, body, site):
 
 @guard("writeval-never-errs")
 def g_writeval(ctx, F, body, site):
+    # the value unwrapped here is the Result of a WriteVal visit
+    t0 = body.term(site["bb"])
+    l0 = op_local(t0["args"][0]) if t0.get("args") else None
+    if l0 is None or not body.local_ty(l0).s.startswith("std::result::Result<exec::write_val::WriteValOutput, ()>"):
+        return False, "the unwrapped value is not the Result<WriteValOutput, ()> of a WriteVal visit"
     key = ("writeval-never-errs", F.profile)
     if key in ctx.cache:
         return ctx.cache[key]
